@@ -32,10 +32,20 @@ ZONE = "America/New_York"
 LOCAL = "Europe/Berlin"
 
 
+def _us(case):
+    """sub-second part of the trigger (API paths only: iCalendar text has whole seconds)"""
+    return case.get("t_us", 0) if case["mode"] != "moz-parse" and case["tkind"] != "date" else 0
+
+
+def _start(case, start, provider):
+    v = V.dec(start, provider)
+    return v.replace(microsecond=_us(case)) if isinstance(v, datetime) and case["tkind"] != "utc" else v
+
+
 def trig_instant(case):
     """trigger as a UTC instant (floating/date without local zone: wall time read as UTC, only used to place the other instants)"""
     k = case["tkind"]
-    wall = datetime(*T_WALL) if k != "date" else datetime(*T_WALL[:3])
+    wall = datetime(*T_WALL, microsecond=_us(case)) if k != "date" else datetime(*T_WALL[:3])
     if k == "utc":
         return wall.replace(tzinfo=UTC)
     if k == "zoned":
@@ -111,13 +121,13 @@ def build(case, provider, alarm_ack, comp_ack, snooze):
     cls = Event if case.get("comp", "Event") == "Event" else Todo
     ev = cls()
     al = Alarm()
-    al.TRIGGER = datetime(*T_WALL, tzinfo=UTC) if k == "utc" else timedelta(0)
+    al.TRIGGER = datetime(*T_WALL, microsecond=_us(case), tzinfo=UTC) if k == "utc" else timedelta(0)
     if alarm_ack is not None:
         al.ACKNOWLEDGED = alarm_ack
     if mode == "manual":
         A = Alarms()
         A.add_alarm(al)
-        A.set_start(V.dec(start, provider))
+        A.set_start(_start(case, start, provider))
         prime = case.get("prime")
         if prime:       # history on one object: the results were read (and possibly cached) before the last setter call
             far_past, far_future = datetime(1999, 1, 1, tzinfo=UTC), datetime(2999, 1, 1, tzinfo=UTC)
@@ -140,7 +150,7 @@ def build(case, provider, alarm_ack, comp_ack, snooze):
         A.acknowledge_until(comp_ack)
         A.snooze_until(snooze)
         return A
-    ev.start = V.dec(start, provider)
+    ev.start = _start(case, start, provider)
     ev.add_component(al)
     if mode == "dtstamp":
         if comp_ack is not None:
@@ -396,7 +406,7 @@ def judge(case):
 
 def _is_orig(case, rep):
     k = case["tkind"]
-    wall = datetime(*T_WALL)
+    wall = datetime(*T_WALL, microsecond=_us(case))
     if k == "date":
         if case.get("local_tz"):
             return (isinstance(rep, datetime) and rep.replace(tzinfo=None) == datetime(*T_WALL[:3]) and rep.tzinfo is not None) or rep == date(*T_WALL[:3])
@@ -425,6 +435,8 @@ def info(case):
         classes.append("snoozed")
     if case.get("local_tz"):
         classes.append("local-tz-set")
+    if _us(case) or any(isinstance(o, float) for o in offs):
+        classes.append("sub-second-distance")
     if case.get("refused") and case["mode"] in ("dtstamp", "moz"):
         classes.append("history:second-component-refused")
     return {"nontrivial": present >= 2, "classes": classes}
@@ -457,7 +469,14 @@ def _rows():
     return rows
 
 
-_off = st.one_of(st.none(), st.integers(-10 ** 6, 10 ** 6), st.sampled_from([-1, 0, 1]))
+_off = st.one_of(st.none(), st.integers(-10 ** 6, 10 ** 6), st.sampled_from([-1, 0, 1]),
+                 st.sampled_from([-0.75, -0.5, -0.25, -0.125, 0.125, 0.25, 0.5, 0.75, 1.5, -1.5, 0.000001, -0.000001]))     # API paths: sub-second distances
+
+
+def _whole_seconds_in_text(case):
+    if case["mode"] == "moz-parse":
+        case = dict(case, t_us=0, **{k: (None if case[k] is None else int(case[k])) for k in ("alarm_ack", "comp_ack", "snooze")})
+    return case
 
 
 def _hyp():
@@ -467,7 +486,8 @@ def _hyp():
         "local_src": st.sampled_from(["str", "zoneinfo", "pytz"]), "prime": st.sampled_from([None, "plain", "snooze-last", "ack-last"]),
         "moz_marker": st.sampled_from(MARKERS),
         "comp": st.sampled_from(["Event", "Todo"]), "later_by": st.integers(1, 10 ** 6),
-        "refused": st.sampled_from([None, None, "acknowledged-far-later", "acknowledged-long-ago", "thunderbird", "incomplete"])})
+        "refused": st.sampled_from([None, None, "acknowledged-far-later", "acknowledged-long-ago", "thunderbird", "incomplete"]),
+        "t_us": st.sampled_from([0, 0, 0, 250000, 500000, 999999, 1])}).map(_whole_seconds_in_text)
 
 
 def _multi():
